@@ -237,6 +237,7 @@ def run(seed=0, rounds=3):
         it_ = torch.tensor([[rng.randrange(Bd) for _ in range(C)] for _ in range(A)])
         structural("index by tensor (rank 2 index)", lambda I, a, i_: a.__vc_getitem__(I, i_), lambda a, i_: a[i_], [(v1, "float"), (it_, "long")])
         structural("repeat", lambda I, a: M["repeat"](I, a, z3.IntVal(A)), lambda a: a.repeat(A), [(v1, "float")])
+        structural("repeat of a matrix", lambda I, a: M["repeat"](I, a, 1, z3.IntVal(C)), lambda a: a.repeat(1, C), F_)
         structural("repeat_interleave", lambda I, a: M["repeat_interleave"](I, a, z3.IntVal(C)), lambda a: a.repeat_interleave(C), [(vi, "long")])
         structural("view split", lambda I, a: M["view"](I, M["flatten"](I, a), z3.IntVal(A), z3.IntVal(Bd)), lambda a: a.flatten().view(A, Bd), F_)
         structural("view split of a leading dimension", lambda I, a: M["view"](I, M["flatten"](I, a, 0, 1), z3.IntVal(A), z3.IntVal(Bd), z3.IntVal(C)), lambda a: a.flatten(0, 1).view(A, Bd, C), [(x3, "float")])
